@@ -312,6 +312,8 @@ def contracts(env):
                        setup=hmq_setup,
                        ensures=[('destinations_published_by_one_atomic_push_last', ens_hmq)],
                        covers=['raise:Merged', 'raise:NothingToDo']))
+    from specs import pushcmds
+    cs = cs + pushcmds.contracts(env)
     return cs
 
 
